@@ -31,12 +31,12 @@ def _alarm(signum, frame):
     raise _RunTimeout()
 
 
-def run_case(mod, case, script=None):
+def run_case(mod, case, script=None, wall_limit=None):
     """Execute one case; classify the outcome.  Returns a dict:
     status in ok / violation / inconclusive / timeout / harness_error"""
     t0 = time.perf_counter()
     old = signal.signal(signal.SIGALRM, _alarm)
-    signal.setitimer(signal.ITIMER_REAL, RUN_WALL_LIMIT)
+    signal.setitimer(signal.ITIMER_REAL, wall_limit or RUN_WALL_LIMIT)
     out = {}
     try:
         try:
@@ -51,7 +51,7 @@ def run_case(mod, case, script=None):
             out = dict(getattr(e, 'partial', {}) or {})
             out.update(status='inconclusive', message=str(e))
         except _RunTimeout:
-            out = dict(status='timeout', message=f'run exceeded {RUN_WALL_LIMIT}s wall clock')
+            out = dict(status='timeout', message=f'run exceeded {wall_limit or RUN_WALL_LIMIT}s wall clock')
         except Exception as e:
             out = dict(status='harness_error', message=''.join(traceback.format_exception(type(e), e, e.__traceback__))[-4000:])
     finally:
@@ -109,7 +109,11 @@ def minimise(mod, case, script, clause, key, max_exec=300, max_wall=40.0):
         if n_exec[0] >= max_exec or time.time() - t0 > max_wall:
             return None
         n_exec[0] += 1
-        out = run_case(mod, c, script=s)
+        if s is not None and isinstance(c.get('sched'), dict):
+            c = dict(c)
+            c['sched'] = dict(c['sched'])
+            c['sched']['cap'] = min(c['sched'].get('cap', 50000), 5 * len(s) + 500)
+        out = run_case(mod, c, script=s, wall_limit=10)
         if same_failure(out, clause, key):
             return out
         return None
